@@ -66,12 +66,18 @@ func (nullFinder) FindDependencies(fsys interface{ Open(string) (interface{}, er
 
 var sNames = []string{"a", "b", "d", "e", "main.tf", ".git", ".terraform", "modules", "logs", "x y", "é", "keep", "..data", "...", ".hidden",
 	// a backslash is an ordinary file-name character (seed C03-g): each of these is one path segment
-	`logs\x.log`, `d\keep`, `sub\id.pem`, `\a`}
+	`logs\x.log`, `d\keep`, `sub\id.pem`, `\a`,
+	// names that a starred rule below covers only with its '*' standing for nothing (seed C10-h)
+	"terraform.tfstate", ".auto.tfvars", "cache", "scratch"}
 var sRuleFiles = []string{"", "", "logs/\n", "*.log\n", "d/\n!d/keep\n", "a\n", "d\n", "/e\n", "d/*\n", "!.terraform/\n", "logs/\nb\n", "**/keep\n",
 	// a negation followed by a plain exclusion that re-excludes part of it (seed C10-e: last match wins)
 	"*.log\n!x.log\nlogs/*.log\n", "d/\n!d/keep\nd/ke*\n", "a\n!a\na\n",
 	// verdicts that depend on where a segment ends, for names with a backslash (the patterns have none)
-	"/*.pem\nlogs/\n", "/?a\nd/*\n"}
+	"/*.pem\nlogs/\n", "/?a\nd/*\n",
+	// a '*' that has to match zero characters (seed C10-h: '[^/]+' emitted for a single '*')
+	"terraform.tfstate*\n", "*.auto.tfvars\n", "cache*/\n", "*/scratch*\nscratch*\n", "a*\n!a?*\n", "*keep*\n",
+	// a line repeated after a rule of the other polarity (seed C03-h: repeats dropped, the first kept)
+	"!a\na\n!a\n", "*.log\n!x.log\n*.log\n", "!main.tf\n*.tf\n!main.tf\n", "keep\n!d/keep\nkeep\n"}
 
 func genFetched(r *Rng) []PNode {
 	var nodes []PNode
@@ -108,7 +114,29 @@ func genFetched(r *Rng) []PNode {
 		}
 	}
 	if r.Chance(55) {
-		nodes = append(nodes, PNode{Path: ".terraformignore", Kind: "f", Perm: 0644, Data: r.Pick(sRuleFiles)})
+		rules := r.Pick(sRuleFiles)
+		if r.Chance(30) {
+			// rule lines made from a name of this tree: a '*' that has to match nothing, or a line repeated
+			// after a rule of the other polarity
+			var cands []PNode
+			for _, nd := range nodes {
+				if (nd.Kind == "f" || nd.Kind == "d") && safeRuleName(nd.Path) {
+					cands = append(cands, nd)
+				}
+			}
+			if len(cands) > 0 {
+				nd := cands[r.Intn(len(cands))]
+				switch {
+				case nd.Kind == "d":
+					rules = emptyStarRuleFor(r, nd.Path) + "/\n"
+				case r.Bool():
+					rules = emptyStarRuleFor(r, nd.Path) + "\n"
+				default:
+					rules = repeatedRuleFor(r, nd.Path)
+				}
+			}
+		}
+		nodes = append(nodes, PNode{Path: ".terraformignore", Kind: "f", Perm: 0644, Data: rules})
 	}
 	return nodes
 }
@@ -117,7 +145,7 @@ type simpleFinder struct{}
 
 func init() {
 	lanes["sanitise"] = func(cfg *Config, rep *Report) {
-		rep.Rule = "one fetched package tree per build: 1..9 nodes (files, directories, fifos, links over 22 target shapes: in-package relative and absolute-into-the-work-directory, dangling, to a directory, to a sibling package, to the manifest name, out of the bundle, through ignored directories, '..' detours) plus one of 17 rule files; names incl. backslashes (ordinary characters); corpus trees with backslash names under anchored / directory / wildcard rules, and with .git / .terraform content at two depths next to a rule file of zero bytes, of one newline, and none; two corpus trees with generated rule files (about 1 MiB of short lines with the rules that matter at the end; a 70 KiB comment line) judged by the oracle only; non-trivial = has a link, a fifo or a rule file; distinct by tree"
+		rep.Rule = "one fetched package tree per build: 1..9 nodes (files, directories, fifos, links over 22 target shapes: in-package relative and absolute-into-the-work-directory, dangling, to a directory, to a sibling package, to the manifest name, out of the bundle, through ignored directories, '..' detours) plus one of 27 rule files (incl. a '*' that has to match zero characters, a line repeated after a rule of the other polarity), 30% of the rule files made from a name of the tree in one of these two shapes; names incl. backslashes (ordinary characters); corpus trees for both shapes; corpus trees with backslash names under anchored / directory / wildcard rules, and with .git / .terraform content at two depths next to a rule file of zero bytes, of one newline, and none; two corpus trees with generated rule files (about 1 MiB of short lines with the rules that matter at the end; a 70 KiB comment line) judged by the oracle only; non-trivial = has a link, a fifo or a rule file; distinct by tree"
 		r := NewRng(cfg.Seed)
 		work, err := filepath.EvalSymlinks(cfg.Work)
 		if err != nil {
@@ -152,6 +180,10 @@ func init() {
 			// removed at any depth. (.terraform/modules goes with .terraform: finding F9, in a tree of its own.)
 			builtinExclusionsTree(true, "", false), builtinExclusionsTree(true, "\n", false), builtinExclusionsTree(false, "", false),
 			builtinExclusionsTree(true, "", true),
+			// a '*' that has to match zero characters next to names where it matches some (seed C10-h)
+			emptyStarTree("terraform.tfstate*\n*.auto.tfvars\ncache*/\nmodules/*/scratch*\n"), emptyStarTree("/terraform.tfstate*\n/*.auto.tfvars\n!prod*.auto.tfvars\n**/scratch*\n"),
+			// a line repeated after a rule of the other polarity: the last occurrence decides (seed C03-h)
+			repeatedLineTree("*.pem\n!certs/public.pem\n*.pem\n"), repeatedLineTree("!keep.log\n*.log\n!keep.log\n"), repeatedLineTree("*.pem\n*.log\n!certs/public.pem\n!keep.log\n  *.pem\n*.log\n"),
 			// oracle only (generated rule files are not sent to the model): a rule file of a bit more than
 			// 1 MiB of short valid lines with the exclusions that matter at its end (seed C10-f: the rule file
 			// read through a 1 MiB LimitReader) ...
@@ -430,6 +462,40 @@ func backslashNamesTree(rules string) []PNode {
 		{Path: "trail\\", Kind: "d", Perm: 0755},
 		{Path: "trail\\/x\\y\\z", Kind: "f", Perm: 0644, Data: "xyz"},
 		{Path: "to-key", Kind: "l", Data: "sub/id.pem"},
+		{Path: ".terraformignore", Kind: "f", Perm: 0644, Data: rules},
+	}
+}
+
+func emptyStarTree(rules string) []PNode {
+	return []PNode{
+		{Path: "main.tf", Kind: "f", Perm: 0644, Data: "m"},
+		{Path: "terraform.tfstate", Kind: "f", Perm: 0600, Data: "state"},
+		{Path: "terraform.tfstate.backup", Kind: "f", Perm: 0600, Data: "older state"},
+		{Path: ".auto.tfvars", Kind: "f", Perm: 0600, Data: "password"},
+		{Path: "prod.auto.tfvars", Kind: "f", Perm: 0600, Data: "prod password"},
+		{Path: "cache", Kind: "d", Perm: 0755},
+		{Path: "cache/blob", Kind: "f", Perm: 0644, Data: "blob"},
+		{Path: "cache-old", Kind: "d", Perm: 0755},
+		{Path: "cache-old/blob", Kind: "f", Perm: 0644, Data: "old blob"},
+		{Path: "modules", Kind: "d", Perm: 0755},
+		{Path: "modules/a", Kind: "d", Perm: 0755},
+		{Path: "modules/a/a.tf", Kind: "f", Perm: 0644, Data: "a"},
+		{Path: "modules/a/scratch", Kind: "f", Perm: 0644, Data: "s"},
+		{Path: "modules/a/scratch.txt", Kind: "f", Perm: 0644, Data: "s.txt"},
+		{Path: "to-main", Kind: "l", Data: "main.tf"},
+		{Path: ".terraformignore", Kind: "f", Perm: 0644, Data: rules},
+	}
+}
+
+func repeatedLineTree(rules string) []PNode {
+	return []PNode{
+		{Path: "main.tf", Kind: "f", Perm: 0644, Data: "m"},
+		{Path: "certs", Kind: "d", Perm: 0755},
+		{Path: "certs/public.pem", Kind: "f", Perm: 0644, Data: "public"},
+		{Path: "certs/private.pem", Kind: "f", Perm: 0600, Data: "private"},
+		{Path: "keep.log", Kind: "f", Perm: 0644, Data: "kept"},
+		{Path: "x.log", Kind: "f", Perm: 0644, Data: "x"},
+		{Path: "to-main", Kind: "l", Data: "main.tf"},
 		{Path: ".terraformignore", Kind: "f", Perm: 0644, Data: rules},
 	}
 }
